@@ -11,21 +11,26 @@ import json, os, shutil, subprocess, sys
 import vf
 
 LEVEL = "fault_enumeration"
+BUILDS = [("c11_crash", "asan"), ("c11_crash", "plain")]   # quick: asan; thorough: plain (every byte) + asan (chosen cuts).
+# The judge forks one single-purpose child per crash image, so a TSan flavor would add nothing here.
 ORACLE = os.path.join(vf.VERIF, "lib", "c11_oracle.py")
 
 KV_MAXLOG = [300, 700, 1500, 4000]
 
 
 def _params(tier):
+    """passes: each history is recorded and judged once per pass (flavor + cut selection)."""
     if tier == "thorough":
+        # ASan makes each forked child ~5x dearer (13 ms vs 2.7 ms per image, mostly kernel time for
+        # fork/exit of the instrumented address space), so the every-byte enumeration runs in the plain
+        # flavor and the sanitizer flavor re-judges the same histories at the structurally chosen cuts.
         return dict(kv_hist=int(os.environ.get("VF_C11_KV_HIST", "320")), kv_nops=24,
-                    js_hist=int(os.environ.get("VF_C11_JSON_HIST", "64")), js_nops=18,
-                    cuts="full", maxfull=256, cap=24, cont=5, levels=2, l2every=6, l2cuts=3,
-                    judge_timeout=5400)
+                    js_hist=int(os.environ.get("VF_C11_JSON_HIST", "64")), js_nops=18, cont=5, judge_timeout=5400,
+                    passes=[dict(flavor="plain", cuts="full", maxfull=256, maxfull_json=1024, cap=24, levels=2, l2every=6, l2cuts=3),
+                            dict(flavor="asan", cuts="quick", maxfull=0, maxfull_json=0, cap=8, levels=2, l2every=4, l2cuts=2)])
     return dict(kv_hist=int(os.environ.get("VF_C11_KV_HIST", "40")), kv_nops=22,
-                js_hist=int(os.environ.get("VF_C11_JSON_HIST", "12")), js_nops=16,
-                cuts="quick", maxfull=0, cap=8, cont=4, levels=1, l2every=1, l2cuts=0,
-                judge_timeout=1500)
+                js_hist=int(os.environ.get("VF_C11_JSON_HIST", "12")), js_nops=16, cont=4, judge_timeout=1500,
+                passes=[dict(flavor="asan", cuts="quick", maxfull=0, maxfull_json=0, cap=8, levels=1, l2every=1, l2cuts=0)])
 
 
 def _hist_cfg(store, hist):
@@ -33,8 +38,9 @@ def _hist_cfg(store, hist):
     if store == "json":
         return dict(variant=0, maxlog=0, empty=0)
     variant = 1 if hist % 4 == 3 else 0            # 3 of 4 histories: compaction runs inside API calls
-    # empty values only in 1 history of 8 (see KvParams::allowEmpty in the harness)
-    return dict(variant=variant, maxlog=KV_MAXLOG[(hist // 4 + hist) % len(KV_MAXLOG)], empty=1 if hist % 8 == 5 else 0)
+    # empty values: every history (they were confined to 1 history in 8 while KVStore::load() still called
+    # memcpy(nullptr, p, 0) for them, a fatal UBSan report in this flavor; fixed in /repo 3914c93)
+    return dict(variant=variant, maxlog=KV_MAXLOG[(hist // 4 + hist) % len(KV_MAXLOG)], empty=1)
 
 
 def _run_oracle(logp, obsp, outp, final=False):
@@ -51,21 +57,25 @@ def _run_oracle(logp, obsp, outp, final=False):
     return recs, None
 
 
-def _judge_args(store, seed, hist, cfg, P, d, only=None):
+def _judge_args(store, seed, hist, cfg, P, ps, d, only=None):
+    # per-child watchdog; VF_C11_CHILD_TIMEOUT_MS exists to exercise the hung-child path (first pass only:
+    # the isolated re-run of a "hung" image always gets the full 60 s)
+    wd = 60000 if only else int(os.environ.get("VF_C11_CHILD_TIMEOUT_MS", "30000"))
     a = ["--mode", "judge", "--store", store, "--seed", seed, "--hist", hist, "--variant", cfg["variant"],
          "--maxlog", cfg["maxlog"], "--empty", cfg["empty"], "--dir", d, "--trace", os.path.join(d, "trace"),
-         "--cuts", P["cuts"], "--maxfull", P["maxfull"], "--cap", P["cap"], "--cont", P["cont"],
-         "--levels", P["levels"], "--l2every", P["l2every"], "--l2cuts", P["l2cuts"], "--timeout-ms", 60000]
+         "--cuts", ps["cuts"], "--maxfull", ps["maxfull_json"] if store == "json" else ps["maxfull"], "--cap", ps["cap"],
+         "--cont", P["cont"], "--levels", ps["levels"], "--l2every", ps["l2every"], "--l2cuts", ps["l2cuts"],
+         "--timeout-ms", wd]
     if only:
         a += ["--only", only, "--levels", 2 if only.count(":") == 3 else 1]
     return a
 
 
-def _history(ctx, binary, store, hist, P, only=None, keep=False):
+def _history(ctx, binary, store, hist, P, ps, only=None, keep=False):
     """-> dict(rrs=[RunResult], recs=[oracle records], bad=[str], summary=dict)"""
     res = dict(rrs=[], recs=[], bad=[], summary=None)
     cfg = _hist_cfg(store, hist)
-    d = os.path.join(ctx.tmp, f"{store}-{hist}" + ("-only" if only else ""))
+    d = os.path.join(ctx.tmp, f"{store}-{hist}-{ps['flavor']}" + ("-only" if only else ""))
     os.makedirs(d, exist_ok=True)
     try:
         nops = P["kv_nops"] if store == "kv" else P["js_nops"]
@@ -86,7 +96,7 @@ def _history(ctx, binary, store, hist, P, only=None, keep=False):
             return res
         out2 = os.path.join(d, "judge.jsonl")
         obsp = os.path.join(d, "obs.jsonl")
-        rr2 = vf.run_harness(binary, _judge_args(store, ctx.seed, hist, cfg, P, d, only) + ["--obs", obsp, "--out", out2],
+        rr2 = vf.run_harness(binary, _judge_args(store, ctx.seed, hist, cfg, P, ps, d, only) + ["--obs", obsp, "--out", out2],
                              timeout=P["judge_timeout"], out_file=out2)
         res["rrs"].append(rr2)
         if rr2.timed_out or rr2.rc != 0:
@@ -108,7 +118,7 @@ def _history(ctx, binary, store, hist, P, only=None, keep=False):
         for rt in retries[:4]:
             o = f"{rt['k']}:{rt['b']}" + (f":{rt['k2']}:{rt['b2']}" if "k2" in rt else "")
             obs2 = os.path.join(d, "obs-retry.jsonl")
-            rr3 = vf.run_harness(binary, _judge_args(store, ctx.seed, hist, cfg, P, d, o) + ["--obs", obs2, "--out", os.path.join(d, "j3.jsonl")],
+            rr3 = vf.run_harness(binary, _judge_args(store, ctx.seed, hist, cfg, P, ps, d, o) + ["--obs", obs2, "--out", os.path.join(d, "j3.jsonl")],
                                  timeout=600, out_file=os.path.join(d, "j3.jsonl"))
             rr3.records = []  # counters of the re-run are not evidence
             res["rrs"].append(rr3)
@@ -125,13 +135,18 @@ def _history(ctx, binary, store, hist, P, only=None, keep=False):
                             recs.append(r)
         if len(retries) > 4:
             res["bad"].append(f"{store} hist={hist}: {len(retries)} children hit the watchdog")
+        if any(r.get("t") == "judge" and r.get("stopped_early") for r in rr2.records):
+            res["bad"].append(f"{store} hist={hist}: enumeration stopped after {len(retries)} children hit the watchdog")
+        for r in recs:
+            if r.get("t") == "viol" and isinstance(r.get("detail"), dict):
+                r["detail"]["flavor"] = ps["flavor"]
         res["recs"] = recs
         with open(logp) as fh:
             lg = json.load(fh)
         j = [r for r in rr2.records if r.get("t") == "judge"]
         if j:
             j = j[0]
-            res["summary"] = dict(store=store, hist=hist, variant=cfg["variant"], maxlog=cfg["maxlog"],
+            res["summary"] = dict(store=store, hist=hist, flavor=ps["flavor"], cuts=ps["cuts"], variant=cfg["variant"], maxlog=cfg["maxlog"],
                                   calls=len(lg["calls"]), file_ops=j["ops"], writes=j["writes"],
                                   every_operation_boundary=True,
                                   writes_cut_at_every_byte=j["writes_full"],
@@ -167,28 +182,29 @@ def _fold(ctx, res):
 
 def run(ctx):
     P = _params(ctx.tier)
-    binary = vf.build("c11_crash", "asan")
+    bins = vf.build_many([("c11_crash", ps["flavor"]) for ps in P["passes"]])
     jobs = []
-    for h in range(P["kv_hist"]):
-        jobs.append(lambda h=h: _history(ctx, binary, "kv", h, P))
-    for h in range(P["js_hist"]):
-        jobs.append(lambda h=h: _history(ctx, binary, "json", h, P))
-    # long (every-byte) histories first would need their cost in advance; interleave stores instead
-    jobs = jobs[::2] + jobs[1::2]
+    for ps in P["passes"]:
+        b = bins[("c11_crash", ps["flavor"])]
+        js = [lambda h=h, b=b, ps=ps: _history(ctx, b, "kv", h, P, ps) for h in range(P["kv_hist"])] + \
+             [lambda h=h, b=b, ps=ps: _history(ctx, b, "json", h, P, ps) for h in range(P["js_hist"])]
+        jobs += js[::2] + js[1::2]   # interleave the two stores
     summaries = []
     for res in vf.run_many(ctx, jobs):
         _fold(ctx, res)
         if res["summary"]:
             summaries.append(res["summary"])
-    summaries.sort(key=lambda s: (s["store"], s["hist"]))
+    summaries.sort(key=lambda s: (s["flavor"], s["store"], s["hist"]))
     ctx.extra["histories"] = summaries if len(summaries) <= 80 else summaries[:40] + summaries[-40:]
     ctx.extra["histories_total"] = len(summaries)
     ctx.extra["histories_with_every_byte_of_every_write_cut"] = sum(1 for s in summaries if s["exhaustive_bytes"])
     ctx.extra["images_total"] = sum(s["images"] + s["images_level2"] for s in summaries)
     ctx.extra["tier_parameters"] = {k: v for k, v in P.items()}
-    # exhaustive only if, for every history, every byte offset of every write was cut (never true when a
-    # history contains a write larger than maxfull; those are cut at structure boundaries + random offsets)
-    ctx.exhaustive = bool(summaries) and all(s["exhaustive_bytes"] for s in summaries) and ctx.tier == "thorough"
+    # per history: every operation boundary is always enumerated; every byte offset of every write only in the
+    # "full" pass and only for writes <= maxfull bytes (larger ones: structure boundaries + random offsets),
+    # so the run as a whole is exhaustive only if no history contained a larger write
+    full = [s for s in summaries if s["cuts"] == "full"]
+    ctx.exhaustive = bool(full) and all(s["exhaustive_bytes"] for s in full)
     ctx.rule = ("one evaluation = one crash image (trace prefix up to operation k, byte b) recovered by a fresh store in a child "
                 "process, compared with the admissible set, then continued, closed cleanly, reopened and compared again; "
                 "distinct = hash of (store, level, cut-class lineage, in-flight call kind, which admissible state was recovered "
@@ -218,8 +234,10 @@ def replay(ctx, path):
         raise vf.HarnessFailure("replay file carries no history coordinates")
     ctx.seed = d.get("seed", rp.get("seed", ctx.seed))
     P = _params(rp.get("tier", ctx.tier))
-    binary = vf.build("c11_crash", "asan")
+    flavor = d.get("flavor", "asan")
+    ps = [x for x in P["passes"] if x["flavor"] == flavor] or P["passes"]
+    binary = vf.build("c11_crash", ps[0]["flavor"])
     only = f"{d['k']}:{d['b']}" + (f":{d['k2']}:{d['b2']}" if "k2" in d else "")
-    res = _history(ctx, binary, d["store"], d["hist"], P, only=only)
+    res = _history(ctx, binary, d["store"], d["hist"], P, ps[0], only=only)
     _fold(ctx, res)
     ctx.rule = f"replay of {d['store']} history {d['hist']} (seed {ctx.seed}) cut at {only}"
